@@ -9,5 +9,7 @@ CONSTANTS
   FailKinds <- AllFails
   AnyOrder = FALSE
   Canon = TRUE
+  Elapse <- ElapseAll
+  ElapseChoices <- GenAllElapse
 VIEW View
 INVARIANTS EmitEvery
